@@ -59,7 +59,7 @@ def scheme_builders(sm: SourceModel) -> list[Func]:
         if "." in f.qualname:
             continue
         ps = f.params
-        if len(ps) >= 2 and ps[0] == "ode" and ps[1] == "dt" and any(isinstance(n, ast.For) for n in ast.walk(f.node)):
+        if len(ps) >= 2 and ps[0] == "ode" and ps[1] == "dt" and "printer" in ps and not f.name.startswith("_"):
             out.append(f)
     if not out:
         for nm in ("explicit_euler", "generalized_rush_larsen", "hybrid_rush_larsen"):
@@ -85,6 +85,15 @@ def _conditional_handler(ev: te.TermEval, call: ast.Call):
 def build(sm: SourceModel, f: Func) -> SchemeModel:
     from .canon import Canon
     from .inline import inlined
+
+    try:
+        m_av = build_av(sm, f)
+    except AnalysisError:
+        raise
+    except Exception:
+        m_av = None
+    if m_av is not None and m_av.rows:
+        return m_av
 
     f = inlined(sm, f)
     node = f.node
@@ -289,3 +298,204 @@ EULER = ref("STATE + DT * DERIV")
 RL = "DERIV / LIN * (exp(LIN * DT) - 1)"
 GRL_PLAIN = ref(f"STATE + {RL}")
 GRL_GUARDED = ref(f"STATE + ITE(Abs(LIN) > DELTA, {RL}, DT * DERIV)")
+
+
+# ---------------------------------------------------------------------------------------------------------
+# path tables from abstract values (sa.av): independent of how the builder is written (counter or position table,
+# continue or else, helpers, comprehension, generator); the ast-based construction above is the fallback
+
+
+def _atom_name(c, bv) -> str | None:
+    """canonical predicate name of an atomic condition over the element `bv`"""
+    from . import av
+
+    isd = ("call", "isinstance", (bv, ("sym", "atoms.StateDerivative")), ())
+    if c == isd or c == ("call", "isinstance", (bv, ("sym", "StateDerivative")), ()):
+        return "ISDERIV"
+    diff = ("mcall", ("attr", bv, "expr"), "diff", (("attr", ("attr", bv, "state"), "symbol"),), ())
+    if c == ("attr", diff, "is_zero"):
+        return "DIFF_ZERO"
+    if c == ("call", "fraction_numerator_is_nonzero", (diff,), ()):
+        return "NUMERATOR_NONZERO"
+    sname = ("attr", ("attr", bv, "state"), "name")
+    if c[0] == "cmp" and c[1] == "in" and c[2] == sname:
+        return "STIFF[" + av.show(c[3]) + "]"
+    if c[0] == "if" and c[1][0] == "cmp" and c[1][1] == "is" and c[1][3] == av.NONE and c[2] == av.C(False) and c[3][0] == "cmp" and c[3][1] == "in" and c[3][2] == sname and c[3][3] == c[1][2]:
+        return "STIFF[" + av.show(c[3][3]) + "]"
+    if c[0] == "cmp" and c[1] == "in":
+        return "IN[" + av.show(c[2]) + " in " + av.show(c[3]) + "]"
+    return None
+
+
+def build_av(sm: SourceModel, f: Func):
+    """SchemeModel of a builder from its abstract value, or None when the value is not one pass over the sorted
+    assignments that is understood."""
+    from . import av
+
+    A = av.AV(sm)
+    v, env = A.returned(f)
+    inner = av._unwrap_seq(v)
+    if av.has_unk(v) or inner[0] != "comp" or inner[4]:
+        return None
+    d, it, items = inner[1], inner[2], inner[3]
+    bv = ("bv", d)
+    x = "x"
+    dt = f.params[1]
+    # items: (condition formula, printer call)
+    flat = []
+    for it_ in items:
+        cond = av.C(True)
+        while it_[0] == "when":
+            cond = av.mk_and(cond, it_[1])
+            it_ = it_[2]
+        if not (it_[0] == "call" and it_[1] == "printer" and len(it_[2]) >= 2):
+            return None
+        flat.append((cond, it_))
+
+    def base_atoms(c, out):
+        """leaves of a boolean formula (through not / and / boolean-valued if)"""
+        if c[0] == "not":
+            base_atoms(c[1], out)
+        elif c[0] == "bool":
+            for k in c[2]:
+                base_atoms(k, out)
+        elif c[0] == "if" and _atom_name(c, bv) is None:
+            for k in c[1:]:
+                base_atoms(k, out)
+        elif c[0] != "c" and c not in out:
+            out.append(c)
+
+    atoms_seen = []
+    for cond, call in flat:
+        base_atoms(cond, atoms_seen)
+        for sub in av.find_all(call, "if"):
+            base_atoms(sub[1], atoms_seen)
+    names = {}
+    for a in atoms_seen:
+        nm = _atom_name(a, bv)
+        names[a] = nm if nm is not None else av.show(a).replace(f"${d}", x)
+
+    te_atoms = {f"{x}.state.symbol": "STATE", f"{x}.symbol": "DERIV", f"{x}.expr": "EXPR", f"{x}.name": "XNAME", f"{x}.state.name": "STATENAME", x: "X", dt: "DT"}
+    if "delta" in f.params:
+        te_atoms["delta"] = "DELTA"
+    te_atoms["_cidx%d" % d] = "CTR"
+    te_atoms["_idx%d" % d] = "IDX_ALL"
+    funcs = {"sympytools.Conditional": _conditional_handler, "Conditional": _conditional_handler}
+
+    def term(val):
+        ev = te.TermEval(env={}, atoms=te_atoms, funcs=funcs)
+        return ev.ev(ast.parse(av.to_python(val, {d: x}), mode="eval").body)
+
+    rows = []
+
+    def specialise(val, assign):
+        for a, pol in assign:
+            val = av.assume(val, a, pol, True)
+        return val
+
+    PRIORITY = ("ISDERIV", "STIFF", "IN[", "DIFF_ZERO", "NUMERATOR_NONZERO")
+
+    def first_atom(val):
+        found = []
+        if val[0] in ("not", "bool") or val[0] == "c" or val in atoms_seen or (val[0] == "if" and val not in atoms_seen):
+            base_atoms(val, found)
+        found = [a for a in found if a in names]
+        found.sort(key=lambda a: next((i for i, p_ in enumerate(PRIORITY) if names[a].startswith(p_)), len(PRIORITY)))
+        return found[0] if found else None
+
+    def expand(assign):
+        pending = None
+        alive = []
+        for cond, call in flat:
+            c2 = specialise(cond, assign)
+            if c2 == av.C(False):
+                continue
+            if c2 != av.C(True):
+                if pending is None:
+                    pending = first_atom(c2)
+                alive.append(None)
+                continue
+            # the slot index is judged as written (its own condition is part of its meaning)
+            lhs0 = call[2][0]
+            marker = None
+            if lhs0[0] == "sub" and lhs0[1][0] == "call" and lhs0[1][1].endswith("IndexedBase"):
+                idx0 = lhs0[2]
+                good = idx0[0] == "cidx" and idx0[2] == av.C(0) and _atom_name(idx0[3], bv) == "ISDERIV"
+                marker = ("sym", "_SLOT_OK_") if good else ("sym", "_SLOT_" + av.show(idx0).replace(" ", ""))
+                call = (call[0], call[1], (("sub", lhs0[1], marker),) + call[2][1:], call[3])
+            val = specialise(call, assign)
+            if pending is None:
+                for sub in av.find_all(val, "if"):
+                    pa = first_atom(sub[1])
+                    if pa is not None:
+                        pending = pa
+                        break
+            alive.append(val)
+        if pending is not None and len(assign) < 8 and pending not in dict(assign):
+            expand(assign + [(pending, True)])
+            expand(assign + [(pending, False)])
+            return
+        emissions, stores = [], []
+        notes = []
+        for val in alive:
+            if val is None:
+                notes.append("an emission under a condition that is not understood")
+                continue
+            lhs_v, rhs_v = val[2][0], val[2][1]
+            try:
+                rhs = term(rhs_v)
+                if lhs_v[0] == "sub" and lhs_v[1][0] == "call" and lhs_v[1][1].endswith("IndexedBase"):
+                    idx = lhs_v[2]
+                    if idx == ("sym", "_SLOT_OK_"):
+                        idx_t = te.atom("CTR")
+                    else:
+                        idx_t = te.atom(av.show(idx).replace("_SLOT_", ""))
+                        notes.append(f"slot index is {av.show(idx).replace('_SLOT_', '')}, not the position of the derivative among the state derivatives")
+                    lhs = ("fn", "values", (idx_t,))
+                    emissions.append((lhs, rhs, None))
+                    stores.append((idx_t, rhs, None, len(emissions) - 1))
+                else:
+                    emissions.append((term(lhs_v), rhs, None))
+            except Exception as e:  # a printed value that has no term form
+                notes.append(f"value not understood: {e}")
+        lits = frozenset((names[a], pol) for a, pol in assign)
+        first_ok = bool(emissions) and emissions[0][0] == te.atom("DERIV") and emissions[0][1] == te.atom("EXPR")
+        store = stores[0] if stores else None
+        lin_ok = None
+        if store is not None:
+            used = _symbol_terms(store[1])
+            if used:
+                printed = [e[0] for e in emissions[: store[3]]]
+                lin_ok = all(u in printed for u in used)
+        ok_ctr = store is not None and store[0] == te.atom("CTR")
+        raw = " and ".join((names[a] if pol else f"not ({names[a]})") for a, pol in assign) or "True"
+        rows.append(PathRow(lits, raw, emissions, store, len(stores), 0, 1 if ok_ctr else 0, "fall", first_ok, lin_ok, notes))
+
+    expand([])
+    # the result array
+    ibs = [c for c in av.find_all(v, "call") if c[1].endswith("IndexedBase")]
+    values_shape = None
+    if ibs:
+        sh = dict(ibs[0][3]).get("shape")
+        if sh is not None:
+            try:
+                values_shape = ast.parse(av.to_python(sh), mode="eval").body
+                if isinstance(values_shape, ast.List):
+                    values_shape = ast.Tuple(values_shape.elts, ast.Load())
+            except Exception:
+                values_shape = None
+    try:
+        seq = ast.parse(av.to_python(it), mode="eval").body
+    except Exception:
+        seq = ast.Name("unknown", ast.Load())
+    m = SchemeModel(f, None, x, seq, dt, "values", values_shape, "<position>", ast.Constant(0), rows, {}, "printer", "<equations>")
+    m.from_av = True
+    # facts about the stiffness test for C07
+    stiff = [a for a in atoms_seen if (names[a] or "").startswith("STIFF[")]
+    m.stiff_none_ok = all(a[0] == "if" for a in stiff) if stiff else None
+    m.stiff_sources = sorted({names[a][6:-1] for a in stiff})
+    return m
+
+
+def canon_pred_name(nm: str) -> str:
+    return nm
